@@ -432,6 +432,9 @@ func genQueryCase(t *rapid.T, modes []string) queryCase {
 
 func noteQuery(key string, c queryCase) func(r qref, w want, known string) {
 	return func(r qref, w want, known string) {
+		if known != "" {
+			return
+		}
 		rec.Class("query/mode/" + c.Mode)
 		kind := r.msg
 		if i := strings.IndexByte(kind, '"'); i > 0 {
@@ -780,6 +783,9 @@ func TestC17(t *testing.T) {
 
 func noteYAML(key string, c yamlCase) func(r yamlRef, w want, known string) {
 	return func(r yamlRef, w want, known string) {
+		if known != "" {
+			return
+		}
 		rec.Class("yaml/mode/" + c.Mode)
 		rec.Class("yaml/fault/" + c.Fault.Kind)
 		if !r.positioned || w.Pos < 0 {
